@@ -19,8 +19,9 @@ import (
 
 	sdkmath "cosmossdk.io/math"
 	sdk "github.com/cosmos/cosmos-sdk/types"
-	stakingtypes "github.com/cosmos/cosmos-sdk/x/staking/types"
 	"github.com/cosmos/cosmos-sdk/x/authz"
+	stakingtypes "github.com/cosmos/cosmos-sdk/x/staking/types"
+	transfertypes "github.com/cosmos/ibc-go/v7/modules/apps/transfer/types"
 	"github.com/ethereum/go-ethereum/common"
 
 	evmtypes "github.com/haqq-network/haqq/x/evm/types"
@@ -156,7 +157,8 @@ func (s scen) String() string {
 
 var methodsA = []string{"staking.delegate", "staking.undelegate", "staking.redelegate", "staking.cancelUnbondingDelegation",
 	"distribution.setWithdrawAddress", "distribution.withdrawDelegatorRewards", "distribution.claimRewards",
-	"staking.approve", "staking.increaseAllowance", "staking.decreaseAllowance", "staking.revoke"}
+	"staking.approve", "staking.increaseAllowance", "staking.decreaseAllowance", "staking.revoke",
+	"ics20.transfer", "ics20.approve", "ics20.increaseAllowance", "ics20.decreaseAllowance", "ics20.revoke"}
 
 func (e *env) leaf(method string, named common.Address, caller common.Address) *calltree.Leaf {
 	w, f := e.w, e.f
@@ -189,6 +191,15 @@ func (e *env) leaf(method string, named common.Address, caller common.Address) *
 		return &calltree.Leaf{Name: method, To: precomp.StakingAddr, Data: precomp.MustPack(st, "decreaseAllowance", caller, big.NewInt(7), urls)}
 	case "staking.revoke":
 		return &calltree.Leaf{Name: method, To: precomp.StakingAddr, Data: precomp.MustPack(st, "revoke", caller, urls)}
+	case "ics20.transfer":
+		return &calltree.Leaf{Name: method, To: precomp.ICS20Addr, Data: precomp.MustPack(f.ABIs.ICS20, "transfer", world.IBCPort, world.IBCChannelA, world.Denom, amt, named,
+			w.Addrs[f.T].String(), heightT{3, 100000000}, uint64(0), "")}
+	case "ics20.approve":
+		return &calltree.Leaf{Name: method, To: precomp.ICS20Addr, Data: precomp.MustPack(f.ABIs.ICS20, "approve", caller, []allocT{{world.IBCPort, world.IBCChannelA, []coinT{{world.Denom, big.NewInt(77)}}, nil}})}
+	case "ics20.increaseAllowance", "ics20.decreaseAllowance":
+		return &calltree.Leaf{Name: method, To: precomp.ICS20Addr, Data: precomp.MustPack(f.ABIs.ICS20, strings.TrimPrefix(method, "ics20."), caller, world.IBCPort, world.IBCChannelA, world.Denom, big.NewInt(7))}
+	case "ics20.revoke":
+		return &calltree.Leaf{Name: method, To: precomp.ICS20Addr, Data: precomp.MustPack(f.ABIs.ICS20, "revoke", caller)}
 	}
 	panic(method)
 }
@@ -260,6 +271,19 @@ func partA(e *env, res *engine.Result, shard, n int) {
 					e.saveGrant(w.Addrs[f.T], ca, w.ValAddr, nil, t, exp)
 				}
 			}
+			if strings.HasPrefix(sc.method, "ics20.") {
+				ta := transfertypes.NewTransferAuthorization(transfertypes.Allocation{SourcePort: world.IBCPort, SourceChannel: world.IBCChannelA, SpendLimit: sdk.NewCoins(sdk.NewInt64Coin(world.Denom, 5000))})
+				for _, g := range []struct {
+					on      bool
+					granter sdk.AccAddress
+				}{{sc.grant == "S->caller" || sc.grant == "both", w.Addrs[f.S]}, {sc.grant == "T->caller" || sc.grant == "both", w.Addrs[f.T]}} {
+					if g.on {
+						if err := w.App.AuthzKeeper.SaveGrant(w.Ctx(), ca, g.granter, ta, &exp); err != nil {
+							panic(err)
+						}
+					}
+				}
+			}
 		}
 		lf := e.leaf(sc.method, named, callerAddr)
 		ctx := w.App.BaseApp.VerifDeliverCtx()
@@ -320,6 +344,14 @@ func partA(e *env, res *engine.Result, shard, n int) {
 			if n == "S" || n == callerName {
 				// the signer or the immediate caller: allowed — but when the caller is not the signer,
 				// staking effects on the signer need a live grant
+				if n == "S" && callerName != "S" && sc.method == "ics20.transfer" && sc.grant != "S->caller" && sc.grant != "both" {
+					for _, what := range h {
+						if what == "funds" {
+							res.AddViolation(engine.Violation{Signature: fmt.Sprintf("C04|method=%s|caller=%s|named=%s|grant=%s|breach=nogrant", sc.method, posClass(sc.pos), sc.named, sc.grant),
+								What: "a contract sent the signer's coins over IBC without a grant from the signer", Path: p, Detail: map[string]any{"changed": h, "code": r.Code}})
+						}
+					}
+				}
 				if n == "S" && callerName != "S" && strings.HasPrefix(sc.method, "staking.") && !strings.Contains(sc.method, "llowance") &&
 					sc.method != "staking.approve" && sc.method != "staking.revoke" && sc.grant != "S->caller" && sc.grant != "both" {
 					for _, what := range h {
@@ -657,7 +689,7 @@ func Worker(shard, n int, tier string) *engine.Result {
 	partA(e, res, shard, n)
 	depth := 3
 	if tier == "thorough" {
-		depth = 4
+		depth = 5
 	}
 	sub := engine.NewResult(Prop)
 	ex := &engine.Explorer{W: f.W, Res: sub, Stores: []string{"authz", "staking"}, Ops: e.opsB, MaxDepth: depth, Shard: shard, NShards: n,
@@ -668,6 +700,25 @@ func Worker(shard, n int, tier string) *engine.Result {
 	}
 	sub.States = map[string]int{}
 	res.Merge(sub)
+	// part C: ICS-20 allowance histories (own fixture branch state: same world, explorer restores it)
+	subC := engine.NewResult(Prop)
+	exC := &engine.Explorer{W: f.W, Res: subC, Stores: []string{"authz", "bank", "ibc"}, Ops: e.opsC, MaxDepth: depth, Shard: shard, NShards: n,
+		Deadline: time.Now().Add(20 * time.Minute), Extra: func(w *world.World) string { return fmt.Sprint(w.Header.Time.Unix()) }}
+	exC.Run()
+	for k, v := range subC.States {
+		res.States["C|"+k] = v
+	}
+	n20 := 0
+	for k := range subC.Nontrivial {
+		if strings.HasPrefix(k, "ics20|") {
+			n20++
+		}
+	}
+	res.Counters["partC_states"] += int64(len(subC.States))
+	res.Counters["partC_transitions"] += int64(subC.Transitions)
+	res.Counters["partC_distinct_successful_ics20_spends"] += int64(n20)
+	subC.States = map[string]int{}
+	res.Merge(subC)
 	return res
 }
 
@@ -678,11 +729,258 @@ func Run(tier string) int {
 	res.Sample(map[string]any{"partA": "staking.undelegate by D named=T grants=T->caller", "partB": []string{"approve(5)", "spend(V1,4,swallow)", "spend(V1,4,bubble)"}})
 	return engine.Finish(res, engine.Meta{
 		Property: Prop, Tier: tier, Level: "model_checking", Start: start,
-		Rule: "A: full grid {signer directly, contract, nested contract} x 11 state-changing staking/distribution/authorization methods x named account {signer, calling contract, third party, other contract} x grants {none, signer->caller, third->caller, both}, frame rule on a snapshot of funds / stake / unbonding / withdraw address / grants of 5 accounts; B: DFS with digest dedup over all sequences <= depth of {approve, increase, decrease, revoke, native grant with allow-list / other type, spend via contract with failure bubbled or swallowed to V1/V2 for 4 amounts, expiry jump}; non-trivial = scenario with an effect / successful spend distinct by (grant, amount, mode)",
-		Bounds: map[string]any{"history_depth": map[string]int{"quick": 3, "thorough": 4}},
+		Rule:   "A: full grid {signer directly, contract, nested contract} x 16 state-changing staking/distribution/ICS-20/authorization methods x named account {signer, calling contract, third party, other contract} x grants {none, signer->caller, third->caller, both}, frame rule on a snapshot of funds / stake / unbonding / withdraw address / grants of 5 accounts; B: DFS with digest dedup over all sequences <= depth of {approve, increase, decrease, revoke, native grant with allow-list / other type, spend via contract with failure bubbled or swallowed to V1/V2 for 4 amounts, expiry jump}; C: the same DFS over ICS-20 allowance histories {approve(5|10), increase, decrease(3|all|100), revoke, transfer via contract on the granted / another channel for 4 amounts with failure bubbled or swallowed, expiry jump} with the escrow account as spend witness; non-trivial = scenario with an effect / successful spend distinct by (grant, amount, mode)",
+		Bounds: map[string]any{"history_depth": map[string]int{"quick": 3, "thorough": 5}},
 		Assumptions: []string{
 			"gas price 0; contracts never bubble in part A so effects of failed-and-ignored calls count",
-			"ICS-20 and ERC-20 precompile legs not included (no channel fixture; no ERC-20 precompile is active at this commit)",
+			"ICS-20 histories run over transfer channel ends written on ibc-go's sentinel localhost connection; the ERC-20 precompile leg is not included (no ERC-20 precompile is active at this commit)",
 		},
 	})
+}
+
+// ---- part C: ICS-20 allowance histories ----------------------------------------------------------
+
+type coinT struct {
+	Denom  string
+	Amount *big.Int
+}
+
+type allocT struct {
+	SourcePort    string
+	SourceChannel string
+	SpendLimit    []coinT
+	AllowList     []string
+}
+
+type heightT struct {
+	RevisionNumber uint64
+	RevisionHeight uint64
+}
+
+type tgrant struct {
+	exists, expired bool
+	expiry          int64
+	limits          map[string]sdkmath.Int // channel -> limit of the native denom (absent: channel not covered)
+	unlimited       map[string]bool
+}
+
+func (g tgrant) String() string {
+	if !g.exists {
+		return "none"
+	}
+	var ks []string
+	for k, v := range g.limits {
+		ks = append(ks, k+"="+v.String())
+	}
+	for k := range g.unlimited {
+		ks = append(ks, k+"=unlimited")
+	}
+	sort.Strings(ks)
+	return fmt.Sprintf("%v expired=%v expiry=%d", ks, g.expired, g.expiry)
+}
+
+func (e *env) tgrantOf() tgrant {
+	w, f := e.w, e.f
+	g := tgrant{limits: map[string]sdkmath.Int{}, unlimited: map[string]bool{}}
+	for _, sg := range mustGrants(w, e.acc("C"), w.Addrs[f.S]) {
+		ta, ok := sg.auth.(*transfertypes.TransferAuthorization)
+		if !ok {
+			continue
+		}
+		g.exists = true
+		if sg.exp != nil {
+			g.expiry = sg.exp.Unix()
+			g.expired = !sg.exp.After(w.Header.Time)
+		}
+		for _, al := range ta.Allocations {
+			if al.SpendLimit == nil || len(al.SpendLimit) == 0 {
+				g.unlimited[al.SourceChannel] = true
+				continue
+			}
+			g.limits[al.SourceChannel] = al.SpendLimit.AmountOf(world.Denom)
+		}
+	}
+	return g
+}
+
+func (e *env) escrowed(ch string) sdkmath.Int {
+	return e.w.App.BankKeeper.GetBalance(e.w.Ctx(), transfertypes.GetEscrowAddress(world.IBCPort, ch), world.Denom).Amount
+}
+
+func (e *env) opsC(w *world.World, depth int, path []string) []engine.Op {
+	f := e.f
+	ab := f.ABIs.ICS20
+	cAddr := world.ContractAddr(0x10)
+	var out []engine.Op
+	add := func(name string, fn func(p []string, res *engine.Result) string) {
+		out = append(out, engine.Op{Name: name, Apply: func(w *world.World, p []string, res *engine.Result) string { return fn(p, res) }})
+	}
+	bad := func(res *engine.Result, op, what string, p []string, pre, post tgrant, extra map[string]any) {
+		d := map[string]any{"before": pre.String(), "after": post.String()}
+		for k, v := range extra {
+			d[k] = v
+		}
+		res.AddViolation(engine.Violation{Signature: "C04|op=ics20." + op + "|breach=allowance-arithmetic", What: what, Path: p, Detail: d})
+	}
+	for _, lim := range []int64{5, 10} {
+		lim := lim
+		add(fmt.Sprintf("ics20.approve(%d)", lim), func(p []string, res *engine.Result) string {
+			pre := e.tgrantOf()
+			ok := e.sendTx(precomp.ICS20Addr, precomp.MustPack(ab, "approve", cAddr, []allocT{{world.IBCPort, world.IBCChannelA, []coinT{{world.Denom, big.NewInt(lim)}}, nil}}))
+			post := e.tgrantOf()
+			res.Evaluations++
+			if !ok {
+				if post.String() != pre.String() {
+					bad(res, "approve", "a failed approve changed the grant", p, pre, post, nil)
+				}
+				return "ok:failed"
+			}
+			if l, has := post.limits[world.IBCChannelA]; !post.exists || !has || !l.Equal(sdkmath.NewInt(lim)) {
+				bad(res, "approve", "approve(L) did not leave an allocation limited to L", p, pre, post, nil)
+			}
+			return "ok"
+		})
+	}
+	for _, x := range []struct {
+		name, method string
+		amt          int64
+	}{{"ics20.increase(3)", "increaseAllowance", 3}, {"ics20.decrease(3)", "decreaseAllowance", 3}, {"ics20.decrease(all)", "decreaseAllowance", -1}, {"ics20.decrease(100)", "decreaseAllowance", 100}} {
+		x := x
+		add(x.name, func(p []string, res *engine.Result) string {
+			pre := e.tgrantOf()
+			amt := x.amt
+			cur, has := pre.limits[world.IBCChannelA]
+			if amt < 0 {
+				if !has || !cur.IsPositive() {
+					return "skip"
+				}
+				amt = cur.Int64()
+			}
+			ok := e.sendTx(precomp.ICS20Addr, precomp.MustPack(ab, x.method, cAddr, world.IBCPort, world.IBCChannelA, world.Denom, big.NewInt(amt)))
+			post := e.tgrantOf()
+			res.Evaluations++
+			if !ok {
+				if post.String() != pre.String() {
+					bad(res, x.method, "a failed authorization call changed the grant", p, pre, post, nil)
+				}
+				return "ok:failed"
+			}
+			if !has || pre.expired {
+				return "ok"
+			}
+			want := cur.AddRaw(amt)
+			if x.method == "decreaseAllowance" {
+				want = cur.SubRaw(amt)
+			}
+			got, still := post.limits[world.IBCChannelA]
+			switch {
+			case want.IsNegative():
+				bad(res, x.method, "a decrease below zero succeeded", p, pre, post, nil)
+			case want.IsZero():
+				if still && got.IsPositive() {
+					bad(res, x.method, "decreasing the whole allowance left a positive limit", p, pre, post, nil)
+				}
+			default:
+				if !still || !got.Equal(want) {
+					bad(res, x.method, "the limit did not change by exactly the amount", p, pre, post, map[string]any{"want": want.String()})
+				}
+			}
+			return "ok"
+		})
+	}
+	add("ics20.revoke", func(p []string, res *engine.Result) string {
+		pre := e.tgrantOf()
+		ok := e.sendTx(precomp.ICS20Addr, precomp.MustPack(ab, "revoke", cAddr))
+		post := e.tgrantOf()
+		res.Evaluations++
+		if ok && post.exists {
+			bad(res, "revoke", "revoke left a grant behind", p, pre, post, nil)
+		}
+		if !ok && post.String() != pre.String() {
+			bad(res, "revoke", "a failed revoke changed the grant", p, pre, post, nil)
+		}
+		return "ok"
+	})
+	add("time(+2y)", func(p []string, res *engine.Result) string {
+		w.Header.Time = w.Header.Time.Add(2 * 365 * 24 * time.Hour)
+		w.App.BaseApp.VerifSetDeliverCtx(w.App.BaseApp.VerifDeliverCtx().WithBlockHeader(w.Header))
+		return "ok"
+	})
+	for _, ch := range []string{world.IBCChannelA, world.IBCChannelB} {
+		for _, amt := range []int64{4, 5, 6, 11} {
+			for _, bubble := range []bool{false, true} {
+				ch, amt, bubble := ch, amt, bubble
+				if ch == world.IBCChannelB && amt != 4 {
+					continue
+				}
+				mode := "swallow"
+				if bubble {
+					mode = "bubble"
+				}
+				add(fmt.Sprintf("ics20.spend(%s,%d,%s)", ch, amt, mode), func(p []string, res *engine.Result) string {
+					pre := e.tgrantOf()
+					preEsc := e.escrowed(ch)
+					lf := &calltree.Leaf{Name: "ics20.transfer", To: precomp.ICS20Addr, Data: precomp.MustPack(ab, "transfer", world.IBCPort, ch, world.Denom, big.NewInt(amt), w.Eth[f.S],
+						w.Addrs[f.T].String(), heightT{3, 100000000}, uint64(0), "")}
+					cF := &calltree.Frame{ID: 0, End: "stop", Items: []calltree.Item{{Leaf: lf, Bubble: bubble}}}
+					calltree.Install(w, w.App.BaseApp.VerifDeliverCtx(), cF, nil)
+					e.sendTx(cF.Addr(), nil)
+					post := e.tgrantOf()
+					spent := e.escrowed(ch).Sub(preEsc)
+					res.Evaluations++
+					cls := "limited"
+					lim, has := pre.limits[ch]
+					switch {
+					case !pre.exists:
+						cls = "absent"
+					case pre.expired:
+						cls = "expired"
+					case pre.unlimited[ch]:
+						cls = "unlimited"
+					case !has:
+						cls = "wrongchannel"
+					}
+					viol := func(breach, what string) {
+						res.AddViolation(engine.Violation{Signature: fmt.Sprintf("C04|op=ics20.spend|grant=%s|swallowed=%v|breach=%s", cls, !bubble, breach), What: what, Path: p,
+							Detail: map[string]any{"grant_before": pre.String(), "grant_after": post.String(), "escrowed": spent.String(), "requested": amt}})
+					}
+					if post.exists && pre.exists && post.expiry != pre.expiry {
+						viol("expiry-changed", "using a grant changed its expiration")
+					}
+					if spent.IsZero() {
+						if post.String() != pre.String() {
+							viol("changed-without-spend", "the grant changed although nothing was transferred")
+						}
+						return "ok:rejected"
+					}
+					res.Nontrivial[fmt.Sprintf("ics20|%s|%d|%s", pre.String(), amt, mode)] = true
+					if !spent.Equal(sdkmath.NewInt(amt)) {
+						viol("amount", "the escrowed amount differs from the requested amount")
+					}
+					covering := pre.exists && !pre.expired && (pre.unlimited[ch] || (has && lim.GTE(sdkmath.NewInt(amt))))
+					if !covering {
+						b := "nogrant"
+						if has && !pre.expired && lim.LT(sdkmath.NewInt(amt)) {
+							b = "overspend"
+						}
+						viol(b, "a contract sent the signer's coins over IBC without a live grant covering channel and amount")
+						return "ok:spent"
+					}
+					if has {
+						want := lim.SubRaw(amt)
+						got, still := post.limits[ch]
+						if want.IsZero() {
+							if still && got.IsPositive() {
+								viol("notreduced", "a fully used allocation still has a positive limit")
+							}
+						} else if !still || !got.Equal(want) {
+							viol("notreduced", "a limited allocation was not reduced by exactly the amount used")
+						}
+					}
+					return "ok:spent"
+				})
+			}
+		}
+	}
+	return out
 }
